@@ -253,6 +253,40 @@ def run():
             chk.violation(sig, {"config": k[0], "cells": json.loads(k[1]), "ops": o["ops"]},
                           "EditDistance %s over scripted cells %s: operations %s end with %s %s, the first history with %s" % (
                               k[0], k[1][:300], o["ops"], o["out"], o["exc"], lev_groups[k][0]["out"]))
+    # 4. the mechanism model of EditCollection (spec/Collection.tla), same treatment
+    from props import _coll
+    _coll.model_check(chk, t)
+    coll_groups = {}
+    n_cb = 0
+    cdrift = 0
+    for config, num in (("2", 150), ("1", 100), ("3", 150)) if t == "quick" else (("2", 1500), ("1", 800), ("3", 1500), ("2w", 1000)):
+        behs, res = _coll.generate(config, num, 6)
+        chk.add_tlc(res, "CollectionGen", "simulation of behaviours of the EditCollection model (%s)" % config)
+        for b in behs:
+            drift, obs = _coll.replay(b)
+            n_cb += 1
+            if drift:
+                cdrift += 1
+                if len(chk.drift) < 8:
+                    chk.drift.append("Collection.tla %s: %s (environment %s, operations %s)" % (config, drift[0], obs["env"][:200], obs["ops"]))
+            coll_groups.setdefault((config, obs["env"]), []).append(obs)
+    chk.extra["editcollection_model_behaviours_replayed"] = n_cb
+    chk.extra["editcollection_model_behaviours_with_drift"] = cdrift
+    ckeys = sorted(coll_groups)
+    ctraces = [{"ev": [{"ops": o["ops"], "raised": o["raised"], "out": o["out"]} for o in coll_groups[k]]} for k in ckeys]
+    cverdicts, cst = tlc.validate_traces("EditApiTrace", ctraces, constants={"Ops": {"x"}, "MaxOps": 1000, "Results": {"r"}},
+                                         name="EditApiTrace-coll")
+    chk.add_trace_stats(cst, "EditApiTrace", sum(len(tr["ev"]) for tr in ctraces))
+    for i, k in enumerate(ckeys, 1):
+        for o in coll_groups[k]:
+            chk.count(("coll", k[0], k[1], tuple(o["ops"])))
+        v = cverdicts[i]
+        if v["v"] != "ACCEPT":
+            o = coll_groups[k][v["step"] - 1]
+            sig = {"clause": v["clause"], "kind": "scripted-editcollection", "exc": o["exc"].split(":")[0]}
+            chk.violation(sig, {"config": k[0], "env": json.loads(k[1]), "ops": o["ops"]},
+                          "EditSequence over scripted sub-edits %s: operations %s end with %s %s, the first history with %s" % (
+                              k[1][:300], o["ops"], o["out"], o["exc"], coll_groups[k][0]["out"]))
     chk.sample({"case": jobs[0][0], "histories": [e for e in results[0][:6]]})
     chk.sample({"case": jobs[-1][0], "histories": [e for e in results[-1][-3:]]})
     chk.rule = ("cases = (pair of documents with nested containers, history) where histories are all sequences over 12 "
